@@ -45,6 +45,13 @@ type Ptr struct {
 
 func (p Ptr) IsNil() bool { return p.Obj == nil }
 
+// SelPtr is &a[i] for a symbolic i into an array or slice whose elements are scalars or
+// strings: a load yields the case distinction over the elements, a store picks the element by forking.
+type SelPtr struct {
+	Elems []*Obj
+	Idx   *smt.Term
+}
+
 type BytePtr struct {
 	BO  *ByteObj
 	Idx *smt.Term
